@@ -123,6 +123,7 @@ for type_ in (
     "Gaussian",
     "LogGaussian",
     "compound",
+    "modified",
     "array",
 ):
     register_parser(type_, ModelObject.from_dict)
